@@ -143,7 +143,9 @@ CLAIMED["C12"] = dict(
     text="Lean 4 theorems on the same model: the outcome is stored before `stopped` and never changes; join(u) returning a value "
          "means u stopped and the value is exactly what the target returned; a timeout is reported only if the till fired and u has "
          "not stopped, any other result means u stopped; a failed target is never reported as a return; join_all_threads waits for "
-         "every listed thread, returns results in input order and raises iff some join raised; L2: runs are finite (rank) and a "
+         "every listed thread, returns results in input order and raises iff some join raised; the sixty seconds an unjoined thread waits "
+         "for a joiner are modelled (it then logs, or takes itself out of its parent's list) and leave the outcome where it was "
+         "(C12_expiry_keeps_the_outcome), so a join() minutes later reports it all the same; L2: runs are finite (rank) and a "
          "join is blocked on one thing only, a thread that has not stopped while the timeout has not fired "
          "(C12_join_blocks_only_on_unstopped).",
     design="§5 C12", technique="Lean 4 inductive invariant on join work lists + trace acceptance + value/cause-chain monitors on real runs",
